@@ -900,9 +900,10 @@ class Engine:
                 # outside the exception analysis an assert is an assumption of the code's author: execution continues where it holds
                 # (whether it can fire is decided, or left undecided, by the exception-escape rules of C14)
                 return t + [q for q in f if q.status != "run"]
+            certain = not [q for q in t if q.status == "run"]  # no continuation on which the assertion holds: on this path it fails for sure
             for q in f:
                 if q.status == "run":
-                    q.effects.append(("raise", "AssertionError", s.lineno, q.store.get(("handlers",), ()), fr["fn"].qual))
+                    q.effects.append(("raise", "AssertionError", s.lineno, q.store.get(("handlers",), ()), fr["fn"].qual, "certain" if certain else "possible"))
                     q.status = "raise"
             return t + f
         if isinstance(s, ast.If):
